@@ -284,10 +284,36 @@ def bounded(rep, tier):
             ok, obs = False, f'{type(e).__name__}'
         if not ok:
             fails.setdefault(f'C07.bounded.to_string.insert-raw-value.{reg}', (repr(v), obs))
+    # numeric / boolean constants: each literal of a statement must be rendered as it is rendered alone by a fresh renderer, whatever other constants
+    # the statement (or an earlier statement of the same renderer) contains - values that compare equal across types (1, 1.0, True) included
+    import re as _re
+    mixes = [[1, 1.0, True], [True, 1, 1.0], [1.0, True, 1], [0, 0.0, False], [False, 0.0, 0], [2.0, 2], [2, 2.0], [-1, -1.0], [10, 10.0, 1e1], ['1', 1, 1.0], [1, '1'], [None, 0, False]]
+    for tgt in TARGETS:
+        def alone(x):
+            t = SqlalchemyRender(tgt).get_string(Select(targets=[Constant(x, alias=Identifier('x0'))]), with_failback=False)
+            m = _re.search(r'SELECT (.*?) AS "?`?\[?x0', t, _re.S)
+            return m.group(1) if m else t
+        shared = SqlalchemyRender(tgt)
+        for mix in mixes:
+            n += 1
+            try:
+                want = [alone(x) for x in mix]
+                t = shared.get_string(Select(targets=[Constant(x, alias=Identifier(f'x{i}')) for i, x in enumerate(mix)]), with_failback=False)
+                got = []
+                for i in range(len(mix)):
+                    m = _re.search((r'SELECT ' if i == 0 else r'x%d[`"\]]?, ' % (i - 1)) + r'(.*?) AS "?`?\[?x%d' % i, t, _re.S)
+                    got.append(m.group(1) if m else None)
+            except Exception as e:
+                from sqlalchemy.exc import SQLAlchemyError
+                if not isinstance(e, (SQLAlchemyError, NotImplementedError)):
+                    fails.setdefault(f'C07.bounded.{tgt}.mixed-constants.raises', (repr(mix), f'{type(e).__name__}: {str(e)[:80]}'))
+                continue
+            if got != want:
+                fails.setdefault(f'C07.bounded.{tgt}.mixed-constants', (repr(mix), f'`{" ".join(t.split())[:120]}` renders the constants as {got}, alone they render as {want}'))
     rep.bounded_evals = n
     rep.bounded_rule = (f'all strings of length <= {maxlen} over {chars} plus injection-shaped samples, as Constant in select list / WHERE / IN list / INSERT / UPDATE, '
                         'rendered by the real SqlalchemyRender for 5 dialects and scanned by an independent scanner of the target family; own to_string re-parsed; '
-                        'failures grouped by target x value region')
+                        'failures grouped by target x value region; mixtures of equal-valued int/float/bool/str/NULL constants in one statement and across statements of one renderer vs each constant rendered alone')
     for cid, (inp, obs) in sorted(fails.items()):
         rep.add_bounded(Bounded(cid, False, inp, obs, 'one literal, read back as the value', bound=f'len<={maxlen}'))
 
